@@ -416,7 +416,7 @@ func c05Respelled(ev *vlib.Evidence, driver string, idx int) {
 
 func TestC05(t *testing.T) {
 	ev := vlib.NewEvidence("C05", "exploration",
-		"(1) sequential signed RPCs (vipnode_update, pool_addNode) for 3 identities with nonces equal/lower/higher than the identity's high-water mark, 14 min old (fresh) and 16 min old (stale), oracle = per-identity high-water model; (2) 2..16 goroutines race copies of the same signed request (and 1-3 distinct nonces, 1-2 identities) over Local and separate Remote connections, history recorded at the client boundary and checked with porcupine plus 'accepted copies <= 1'; (2b) replay of minutes-old accepted nonces after >1000 other identities used the store; a captured request replayed under other spellings of the identity; (3) replay across close/reopen of an on-disk badger store; (4) freshness window shortened by the verif hook: replay of a future-dated nonce after the mark's TTL; non-trivial: sequential >= 2 acceptances, concurrent >= 1 overlapping pair; distinct = distinct traces/configurations")
+		"(1) sequential signed RPCs (vipnode_update, pool_addNode) for 3 identities with nonces equal/lower/higher than the identity's high-water mark, 14 min old (fresh) and 16 min old (stale), oracle = per-identity high-water model; (2) 2..16 goroutines race copies of the same signed request (and 1-3 distinct nonces, 1-2 identities) over Local and separate Remote connections, history recorded at the client boundary and checked with porcupine plus 'accepted copies <= 1'; (2b) replay of minutes-old accepted nonces after >1000 other identities used the store; a captured request replayed under other spellings of the identity; (3) replay across close/reopen of an on-disk badger store; (4) freshness window shortened by the verif hook: replay of a future-dated nonce after the mark's TTL; non-trivial: sequential >= 2 acceptances, concurrent >= 1 overlapping pair; distinct = distinct traces/configurations; (faults) first copy submitted while the nonce save fails, then two replays")
 	for _, driver := range vlib.Drivers() {
 		for i := 0; i < vlib.Scale(60, 1500); i++ {
 			c05Sequential(ev, driver, i)
